@@ -269,12 +269,21 @@ theorem tie_ctorActivation (st : State) (e g : Nat) (em : Emitter) (he : st.emit
     simp only [State.setEmitter, State.mk.injEq, and_true, true_and]
     funext e'
     by_cases h : e' = e <;> simp [h]
-theorem purge_filterMap (xs : List Slot) :
-    xs.filterMap (fun x1 => if x1.state = .disconnected then none else if x1.state = .connecting then some { x1 with state := .connected } else some x1) = purge xs := by
+/-- what the purge loop of `~SignalActivation` does to one node -/
+def purgeStep (x : Slot) : Option Slot :=
+  match x.state with
+  | .disconnected => none
+  | .connecting => some { x with state := .connected }
+  | .connected => some x
+
+/-- any per-node function that agrees with `purgeStep` (whatever its text: the translated `switch` with fall-through, or a
+    chain of `if`s) makes the translated purge loop the model's `purge` -/
+theorem filterMap_purge (F : Slot → Option Slot) (hF : ∀ x, F x = purgeStep x) (xs : List Slot) : xs.filterMap F = purge xs := by
   induction xs with
   | nil => rfl
   | cons x xs ih =>
-    cases hs : x.state <;> simp [List.filterMap_cons, purge, hs, ih]
+    simp only [List.filterMap_cons, hF x, purgeStep, purge]
+    cases hs : x.state <;> simp [ih]
 
 theorem modData_frames (st : State) (e g : Nat) (φ : SignalData → SignalData) : (H.modData st e g φ).frames = st.frames := by
   unfold H.modData
@@ -340,7 +349,7 @@ theorem tie_dtorActivation (st : State) (fid : Nat) (f : Frame) (fs : List Frame
         have hpf : ∀ (a : Option Emitter), (st.setEmitter f.data.1 a).popFrame fs.length = (st.popFrame fs.length).setEmitter f.data.1 a := fun _ => rfl
         have he0 : ({ st with frames := fs } : State).emitters f.data.1 = some em := he
         rw [h1]
-        simp only [nf_modData, nf_dirty, purge_filterMap, setEmitter_frames, hpop]
+        simp (disch := (intro x; cases hx : x.state <;> simp [hx, purgeStep])) only [nf_modData, nf_dirty, filterMap_purge, setEmitter_frames, hpop]
         rw [← h1]
         simp only [he0, hd]
         cases hn : f.next with
